@@ -75,6 +75,98 @@ def hash_closure_arg():
     return cellv
 
 
+def prefix_stage_paths(prog, engs):
+    """paths of the hash closure of group_by_prefix with a symbolic FileInfo (length fi.len.0, prefix size prefix_len.0)"""
+    ps, eng = stage(prog, "group_by_prefix", engs)
+    p = ps[0]
+    rh = called(p, r"(^|::)rehash$")[0]
+    hclo = oblig.closure_value(rh.args[5])
+    if hclo is None:
+        raise Inconclusive("hash closure of group_by_prefix not identified")
+    fi_cell = "argfi"
+    mem_p = mirsym.Path.__new__(mirsym.Path)
+    mem_p.__dict__.update(p.__dict__)
+    mem_p.mem = dict(p.mem)
+    mem_p.mem[fi_cell] = Lazy("fi", "file::FileInfo")
+    arg = Agg("tuple", {0: Ref(fi_cell, (), True), 1: Lazy("old_hash", "file::FileHash")})
+    return eng, run_clo(prog, hclo, mem_p, eng, args=[arg])
+
+
+def prefix_coverage_obligation(prog, engs, fn):
+    eng, qs = prefix_stage_paths(prog, engs)
+    P = u64_of(eng, None, Lazy("prefix_len", "FileLen"))
+    L = z3.BitVec("fi.len.0", 64)
+
+    def prop(q):
+        fc = called(q, r"FileChunk::new$")
+        hf = called(q, r"hash_file_or_log_err$")
+        if len(fc) != 1 or len(hf) != 1:
+            return z3.BoolVal(False)
+        pos, ln = u64_of(eng, None, fc[0].args[1]), u64_of(eng, None, fc[0].args[2])
+        res_ok = z3.BoolVal(isinstance(q.result, Lazy) and isinstance(hf[0].ret, Lazy) and q.result.name == hf[0].ret.name)
+        return z3.And(pos == 0, z3.Implies(z3.ULE(L, P), z3.UGE(ln, L)), res_ok)
+    return oblig.check_paths(eng, qs, "prefix stage: chunk starts at 0 and covers the whole file when len <= prefix_len",
+                             prop, fn(), key="prefix:coverage")
+
+
+def prefix_consistency_obligation(prog, engs, fn):
+    """two files of the same length are hashed over the same byte range in the prefix stage whatever devices they are on (otherwise
+    identical files on an SSD and on an HDD get different prefix hashes and their class is split): the closure's paths are paired,
+    every symbol of the second copy except the length and the stage's prefix size is renamed, z3 decides equality of the ranges"""
+    eng, qs = prefix_stage_paths(prog, engs)
+    L = z3.BitVec("fi.len.0", 64)
+    P = z3.BitVec("prefix_len.0", 64)
+    items = []
+    for q in qs:
+        fc = called(q, r"FileChunk::new$")
+        if q.status != "return" or len(fc) != 1:
+            continue
+        items.append((list(q.pc), u64_of(eng, None, fc[0].args[1]), u64_of(eng, None, fc[0].args[2])))
+    o = Obligation("prefix stage: files of equal length are hashed over the same byte range, whatever device each is on",
+                   "E2 mirsym/z3 (two copies of the hash closure)", fn(), "all 64-bit lengths and prefix sizes, every pair of disk kinds")
+    o.key = "prefix:device-independent-range"
+
+    def vars_of(t, acc):
+        if z3.is_const(t) and t.decl().kind() == z3.Z3_OP_UNINTERPRETED:
+            acc[str(t)] = t
+        for c in t.children():
+            vars_of(c, acc)
+    bad = None
+    for i, (pc1, pos1, len1) in enumerate(items):
+        for pc2, pos2, len2 in items:
+            acc = {}
+            for t in pc2 + [pos2, len2]:
+                vars_of(t, acc)
+            sub = [(v, z3.Const(n + "__2", v.sort())) for n, v in acc.items() if n not in ("fi.len.0", "prefix_len.0")]
+            r = lambda t: z3.substitute(t, *sub) if sub else t
+            s = z3.Solver()
+            s.add(*pc1)
+            s.add(*[r(c) for c in pc2])
+            s.add(z3.Or(pos1 != r(pos2), len1 != r(len2)))
+            o.queries += 1
+            if s.check() == z3.sat:
+                m = s.model()
+                bad = {"len": m.eval(L, model_completion=True).as_long(), "prefix_len": m.eval(P, model_completion=True).as_long(),
+                       "range_1": [m.eval(pos1, model_completion=True).as_long(), m.eval(len1, model_completion=True).as_long()],
+                       "range_2": [m.eval(r(pos2), model_completion=True).as_long(), m.eval(r(len2), model_completion=True).as_long()],
+                       "other_symbols": {str(d): str(m[d]) for d in m.decls() if "disk_kind" in str(d)}}
+                break
+        if bad:
+            break
+    o.stats = {"paths": len(items), "states": len(items), "transitions": o.queries}
+    if not items:
+        o.verdict, o.detail = "inconclusive", "vacuous: no path of the hash closure builds a chunk"
+    elif bad:
+        o.verdict = "violated"
+        o.cex = bad
+        o.detail = "two files of %d bytes (prefix size %d) are hashed over [%d, +%d) and [%d, +%d): %s" % (
+            bad["len"], bad["prefix_len"], bad["range_1"][0], bad["range_1"][1], bad["range_2"][0], bad["range_2"][1], bad["other_symbols"])
+    else:
+        o.verdict = "holds"
+        o.witness = "%d x %d path pairs" % (len(items), len(items))
+    return o
+
+
 def run():
     rep = Report(
         "C01", "other",
@@ -107,33 +199,7 @@ def run():
 
     # ------------------------------------------------------------------ O2a prefix stage
     def o2a():
-        ps, eng = stage(prog, "group_by_prefix", engs)
-        p = ps[0]
-        rh = called(p, r"(^|::)rehash$")[0]
-        hclo = oblig.closure_value(rh.args[5])
-        if hclo is None:
-            raise Inconclusive("hash closure of group_by_prefix not identified")
-        P = u64_of(eng, None, [a for a in [p.mem.get(c) for c in p.mem] if False] or Lazy("prefix_len", "FileLen"))
-        fi_cell = "argfi"
-        mem_p = mirsym.Path.__new__(mirsym.Path)
-        mem_p.__dict__.update(p.__dict__)
-        mem_p.mem = dict(p.mem)
-        mem_p.mem[fi_cell] = Lazy("fi", "file::FileInfo")
-        arg = Agg("tuple", {0: Ref(fi_cell, (), True), 1: Lazy("old_hash", "file::FileHash")})
-        qs = run_clo(prog, hclo, mem_p, eng, args=[arg])
-        L = z3.BitVec("fi.len.0", 64)
-
-        def prop(q):
-            fc = called(q, r"FileChunk::new$")
-            hf = called(q, r"hash_file_or_log_err$")
-            if len(fc) != 1 or len(hf) != 1:
-                return z3.BoolVal(False)
-            pos, ln = u64_of(eng, None, fc[0].args[1]), u64_of(eng, None, fc[0].args[2])
-            res_ok = z3.BoolVal(isinstance(q.result, Lazy) and isinstance(hf[0].ret, Lazy) and q.result.name == hf[0].ret.name)
-            return z3.And(pos == 0, z3.Implies(z3.ULE(L, P), z3.UGE(ln, L)), res_ok)
-        o = oblig.check_paths(eng, qs, "prefix stage: chunk starts at 0 and covers the whole file when len <= prefix_len",
-                              prop, fn(), key="prefix:coverage")
-        finish(o, "prefix")
+        finish(prefix_coverage_obligation(prog, engs, fn), "prefix")
         # post filter is the permissive filter (C03) - recorded as wiring fact
     guarded("prefix stage", o2a)
 
